@@ -20,7 +20,7 @@ place() { pk=""; for d in $tests; do
     cp $d $dir/; pk="$pk $dir"; done; pk=$(echo $pk | tr ' ' '\n' | sort -u | tr '\n' ' '); }
 race=""; case $id in C02|C03|C05|C06|C07|C08|C12|C14|C15) race="-race";; esac
 place
-if ! go test -count=1 $race -run 'Demo\|demo\|Equiv\|equiv\|ZZ\|Zz' $pk >/tmp/c4.$$.1 2>&1; then echo "FAIL: test does not pass on the clean tree"; tail -12 /tmp/c4.$$.1; clean; exit 1; fi
+if ! go test -count=1 $race -run 'Demo|demo|Equiv|equiv|ZZ|Zz' $pk >/tmp/c4.$$.1 2>&1; then echo "FAIL: test does not pass on the clean tree"; tail -12 /tmp/c4.$$.1; clean; exit 1; fi
 clean
 git apply --whitespace=nowarn $src/patch.diff || { echo "FAIL: patch does not apply"; exit 1; }
 if ! (go build ./... && go vet ./...) >/tmp/c4.$$.2 2>&1; then echo "FAIL: build/vet"; tail -5 /tmp/c4.$$.2; clean; exit 1; fi
@@ -28,7 +28,7 @@ go test -count=1 ./... >/tmp/c4.$$.3 2>&1
 flt="TestWaitForInterrupt\|TestWaitForStop"; [ "$id" != "C20" ] && flt="TestWaitForInterrupt\|TestWaitForStop\|TestLaunch\|TestRun\|TestRegister"
 if grep '^--- FAIL' /tmp/c4.$$.3 | grep -qv "$flt"; then echo "FAIL: existing tests fail with the change"; grep -A4 '^--- FAIL' /tmp/c4.$$.3 | head -20; clean; exit 1; fi
 place
-go test -count=1 $race -run 'Demo\|demo\|Equiv\|equiv\|ZZ\|Zz' $pk >/tmp/c4.$$.4 2>&1; rc=$?
+go test -count=1 $race -run 'Demo|demo|Equiv|equiv|ZZ|Zz' $pk >/tmp/c4.$$.4 2>&1; rc=$?
 clean
 case $x in
  f|g)
